@@ -315,6 +315,11 @@ func (m *Mempool[T]) PrepareStream(ctx context.Context, count int) {
 	m.mu.Lock()
 	defer m.mu.Unlock()
 
+	// A prefetch that is scheduled after the stream finished must not take
+	// items out of the mempool: nobody would hand them out or give them back.
+	if m.streamedItems == nil {
+		return
+	}
 	m.nextStream = m.streamItems(count)
 	m.nextStreamFetched = true
 }
